@@ -92,10 +92,19 @@ class CallMixin:
                 if others:
                     b.decorators = others  # type: ignore[attr-defined]
                 return b
+            sk = f"{ci.qual}.{attr}"
+            if sk in self.shared_objs:
+                return self.shared_objs[sk]
             try:
-                return self.eval(d, {}, ci.module)
+                val = self.eval(d, {}, ci.module)
             except AnalysisError:
                 return Sym("classattr", ci.qual, attr)
+            if isinstance(val, (PyDict, PyList)):
+                # a class-level container is one object shared by every instance
+                val.created_in = None
+                val.shared_name = sk
+                self.shared_objs[sk] = val
+            return val
         # not defined in the repo: external base class attribute, or instance data set elsewhere
         ext = [q for q in self.repo.mro(obj.cls) if q not in self.repo.classes]
         if ext and attr not in self.instance_attrs(obj.cls):
@@ -1068,6 +1077,11 @@ class CallMixin:
                 if not d.opaque_keys:
                     return default
                 return Sym("dictget", d, a[0], default)
+            hit = self._same_opaque_key(d, a[0])
+            if hit is not None:
+                return hit
+            if getattr(d, "shared_name", None):
+                self.event("shared_miss_assumed", target=d.shared_name)
             return self.dict_lookup_opaque(d, a[0], default)
         if name == "items":
             if not d.opaque_keys:
@@ -1083,7 +1097,22 @@ class CallMixin:
             return PyList(list(d.items.values()) + [v for _, v in d.opaque_keys])
         if name in ("update", "pop", "setdefault", "clear", "popitem"):
             if getattr(d, "created_in", None) != self._frame_id():
-                self.event("mutate", target=_describe(d), op=name)
+                if name == "setdefault" and len(a) == 2 and getattr(d, "shared_name", None):
+                    self.event("mutate", target=d.shared_name, op="setitem", shared=d.shared_name, keyv=a[0], valv=a[1])
+                else:
+                    self.event("mutate", target=getattr(d, "shared_name", None) or _describe(d), op=name, shared=getattr(d, "shared_name", None))
+            if name == "setdefault" and len(a) == 2:
+                kk = dict_key(a[0])
+                if kk is not None:
+                    if kk in d.items:
+                        return d.items[kk]
+                    d.items[kk] = a[1]
+                    return a[1]
+                hit = self._same_opaque_key(d, a[0])
+                if hit is not None:
+                    return hit
+                d.opaque_keys.append((a[0], a[1]))
+                return a[1]
             if name == "update" and a and isinstance(a[0], PyDict):
                 d.items.update(a[0].items)
                 d.opaque_keys.extend(a[0].opaque_keys)
